@@ -103,7 +103,7 @@ def helgrind_cases(seed, tier):
     import random
     r = random.Random(seed * 53 + 7)
     out = []
-    k = 4 if tier == "quick" else 40
+    k = 3 if tier == "quick" else 30
     for i in range(k):
         out.append({"hg": True, "shape": {"kind": "decompress", "blocks": r.randrange(1, 6), "fam": "garbage-tail",
                                           "ing": r.choice([1024, 4096]), "outg": None, "seed": r.randrange(10**6)},
@@ -179,7 +179,7 @@ def replay_file(path):
 def run(tier, seed):
     t0 = time.time()
     exes = core.build_many(["tsan", "rel"])
-    n = 400 if tier == "quick" else 20000
+    n = 280 if tier == "quick" else 5000
     stats, fails = core.hyp_search(strategy(False), make_eval(exes["tsan"], exes["rel"]), n, seed, shrink=False)
     dbg = core.build("dbg")
     s2, f2 = core.pmap_cases(make_hg_eval(dbg, exes["rel"]), helgrind_cases(seed, tier))
